@@ -1,18 +1,22 @@
 """C03 - Map results and call counts are independent of executor, storage and schedule.
 
-Case (JSON):
+Case (JSON) = one request with a bundle of runs (one literal of the request and one string table per bundle keeps
+the Coq literals small; model and implementation are compared for EACH run):
   {"req":   a structural map request (harness/mapsym.py format; its "storage" entry is ignored here),
    "gens":  [[position in req.funcs, ...], ...]   generation structure of the REAL pipeline (submission order),
-   "pis":   [[slot, ...], ...]                    one execution order per generation (controlled modes),
-   "stor":  {function name: storage id}, "stor_form": "str" | "each" | "default",
-   "exec":  "ctl" | "thread" | "process" | "default", "exec_form": "single" | "each" | "default",
-   "entry": "map" | "async", "seed": int (per-call delays in the real-pool modes)}
-Observation: ["ok", [[output, Result.output, stored]...], log, dumps] | Err(class) ; a run that does not finish within
-TIMEOUT seconds is Err("Timeout").
-  log   = [[function, "f(p=<canon>,...)"], ...]: raw execution order under the controlled executor, otherwise the
-          canonical form (maximal runs of calls of one generation, each run sorted)
-  dumps = [[output, "k1,k2", 1 if dumped while a task ran else 0], ...] of the storage arrays: raw order (controlled),
-          sorted (thread pools), [] (process pools: the workers' dumps are not visible to the parent's recorder)
+   "runs":  [{"pis":  [[slot, ...], ...]           one execution order per generation (controlled executor),
+              "stor": {function name: storage id}, "stor_form": "str" | "each" | "default",
+              "exec": "ctl" | "thread" | "process" | "default", "exec_form": "single" | "each" | "default",
+              "entry": "map" | "async", "seed": int (per-call delays in the real-pool modes)}, ...]}
+Observation: [sorted table of all distinct strings, distinct output blocks, [run observation, ...]] with
+  output block    = [[Result.output, stored] per output]
+  run observation = [1, index of its output block, log, dumps] | Err(class);
+                    a run that does not finish within TIMEOUT seconds is Err("Timeout");
+  values = [0, string index] | [1, shape, [string index ...]];
+  log    = string indices of "f(p=<canon>,...)" per invocation: raw execution order under the controlled executor,
+           otherwise the canonical form (maximal runs of calls of one generation, each run sorted);
+  dumps  = dump_code(output position, key, 1 if dumped while a task ran else 0) per StorageBase.dump: raw order
+           (controlled), sorted (thread pools), [] (process pools: the workers' dumps are not visible to the recorder).
 """
 from __future__ import annotations
 
@@ -31,7 +35,7 @@ import time
 from concurrent.futures import Executor, Future, ProcessPoolExecutor, ThreadPoolExecutor
 
 from .. import mapgen, mapsym
-from ..coqlit import Err, cbool, clist, cnat, cpair, cstr
+from ..coqlit import Err, cbool, clist
 
 PROP = "C03"
 RUN = "Run_C03"
@@ -191,8 +195,8 @@ def real_gens(p, req):
     return [[names.index(f.__name__) for f in g] for g in p.topological_generations.function_lists]
 
 
-def storage_arg(c):
-    req, stor, form = c["req"], c["stor"], c["stor_form"]
+def storage_arg(req, run):
+    stor, form = run["stor"], run["stor_form"]
     if form == "str":
         return stor[req["funcs"][0]["name"]]
     if form == "each":
@@ -205,9 +209,9 @@ def storage_arg(c):
     return d
 
 
-def executor_arg(c, make):
+def executor_arg(req, run, make):
     """make() creates an executor; returns (argument for executor=, list of created executors)."""
-    req, form = c["req"], c["exec_form"]
+    form = run["exec_form"]
     if form == "single":
         ex = make()
         return ex, [ex]
@@ -222,6 +226,14 @@ def executor_arg(c, make):
 
 
 # ------------------------------------------------------------------ dump recorder
+def dump_code(o, key, w):
+    """One integer per dump (as Corr/Run_C03.dump_code)."""
+    acc = 1
+    for k in key:
+        acc = acc * 16 + int(k)
+    return 2 * (o + 32 * acc) + w
+
+
 class DumpRecorder:
     def __init__(self, is_worker):
         self.events = []
@@ -248,30 +260,27 @@ class DumpRecorder:
         for cls, orig in self.saved:
             cls.dump = orig
 
-    def obs(self, results):
-        names = {id(r.store): o for o, r in results.items()}
-        return [[names.get(i, "?"), ",".join(map(str, key)), w] for i, key, w in self.events]
+    def obs(self, req, results):
+        outs = [o for f in req["funcs"] for o in f["outs"]]
+        pos = {id(results[o].store): k for k, o in enumerate(outs) if o in results}
+        return [dump_code(pos.get(i, len(outs)), key, w) for i, key, w in self.events]
 
 
 # ------------------------------------------------------------------ canonical log
-def log_pairs(lines):
-    return [[ln.split("(", 1)[0], ln] for ln in lines]
-
-
-def canon_log(c, pairs):
+def canon_log(c, lines):
     rank = {}
     for k, g in enumerate(c["gens"]):
         for pos in g:
             rank[c["req"]["funcs"][pos]["name"]] = k
     out, cur, r = [], [], None
-    for e in pairs:
-        re_ = rank.get(e[0], len(c["gens"]))
+    for ln in lines:
+        re_ = rank.get(ln.split("(", 1)[0], len(c["gens"]))
         if cur and re_ != r:
-            out += sorted(cur, key=lambda x: x[1])
+            out += sorted(cur)
             cur = []
-        cur.append(e)
+        cur.append(ln)
         r = re_
-    return out + sorted(cur, key=lambda x: x[1])
+    return out + sorted(cur)
 
 
 # ------------------------------------------------------------------ running the implementation
@@ -291,11 +300,11 @@ def _drop_process_pool():
             p.shutdown(wait=False, cancel_futures=True)
 
 
-def _call_map(p, c, d, executor, parallel=True):
-    kw = dict(run_folder=d, internal_shapes=mapsym.internal_arg(c["req"]), storage=storage_arg(c), executor=executor)
-    inputs = mapsym.map_inputs(c["req"])
-    if c["entry"] == "map":
-        return p.map(inputs, parallel=parallel, **kw)
+def _call_map(p, req, run, d, executor):
+    kw = dict(run_folder=d, internal_shapes=mapsym.internal_arg(req), storage=storage_arg(req, run), executor=executor)
+    inputs = mapsym.map_inputs(req)
+    if run["entry"] == "map":
+        return p.map(inputs, parallel=True, **kw)
 
     async def go():
         return await p.map_async(inputs, **kw).task
@@ -303,31 +312,36 @@ def _call_map(p, c, d, executor, parallel=True):
     return asyncio.run(go())
 
 
-def _run(c):
+def _values(req, r):
+    return [[a, b] for _, a, b in mapsym.results_obs(req, r)]
+
+
+def _run(c, run):
+    """One run of the real implementation: [values, log lines, dumps] (strings not yet interned)."""
     req = c["req"]
-    mode = c["exec"]
+    mode = run["exec"]
     with tempfile.TemporaryDirectory(prefix="verif_c03_") as tmp:
         log = mapsym.CallLog(os.path.join(tmp, "calls.log") if mode in ("process", "default") else None)
-        p = build_pipeline(req, log, delay_seed=None if mode == "ctl" else c.get("seed", 0))
+        p = build_pipeline(req, log, delay_seed=None if mode == "ctl" else run.get("seed", 0))
         if real_gens(p, req) != c["gens"]:
             return Err("GenerationMismatch")
         d = os.path.join(tmp, "run")
         created = []
         try:
             if mode == "ctl":
-                sched = Sched(c["pis"])
-                ex, _ = executor_arg(c, lambda: CtlExecutor(sched))
+                sched = Sched(run["pis"])
+                ex, _ = executor_arg(req, run, lambda: CtlExecutor(sched))
                 with DumpRecorder(lambda: sched.in_batch) as rec:
-                    r = _call_map(p, c, d, ex)
-                pairs = log_pairs(log.read())
-                return ["ok", mapsym.results_obs(req, r), pairs, rec.obs(r)]
+                    r = _call_map(p, req, run, d, ex)
+                return [_values(req, r), log.read(), rec.obs(req, r)]
             if mode == "thread":
                 me = threading.get_ident()
-                ex, created = executor_arg(c, lambda: ThreadPoolExecutor(max_workers=1 + c.get("seed", 0) % 4))
+                ex, created = executor_arg(req, run,
+                                           lambda: ThreadPoolExecutor(max_workers=1 + run.get("seed", 0) % 4))
                 with DumpRecorder(lambda: threading.get_ident() != me) as rec:
-                    r = _call_map(p, c, d, ex)
-                return ["ok", mapsym.results_obs(req, r), canon_log(c, log_pairs(log.read())),
-                        sorted(rec.obs(r), key=lambda x: f"{x[0]}:{x[1]}:{x[2]}")]
+                    r = _call_map(p, req, run, d, ex)
+                return [_values(req, r), canon_log(c, log.read()),
+                        sorted(rec.obs(req, r))]
             if mode == "process":
                 k = itertools.count()
 
@@ -339,22 +353,22 @@ def _run(c):
                     created.append(t)
                     return t
 
-                ex, _ = executor_arg(c, make)
-                r = _call_map(p, c, d, ex)
+                ex, _ = executor_arg(req, run, make)
+                r = _call_map(p, req, run, d, ex)
             else:  # pipefunc's own default executor (ProcessPoolExecutor created by _maybe_executor)
-                r = _call_map(p, c, d, None)
-            return ["ok", mapsym.results_obs(req, r), canon_log(c, log_pairs(log.read())), []]
+                r = _call_map(p, req, run, d, None)
+            return [_values(req, r), canon_log(c, log.read()), []]
         finally:
             for e in created:
                 e.shutdown(wait=False)
 
 
-def run_impl(c):
+def _run_guarded(c, run):
     box = {}
 
     def target():
         try:
-            box["r"] = _run(c)
+            box["r"] = _run(c, run)
         except BaseException as e:  # noqa: BLE001
             box["r"] = Err(e)
 
@@ -363,10 +377,53 @@ def run_impl(c):
         t.start()
         t.join(TIMEOUT)
     if t.is_alive():
-        if c["exec"] == "process":
+        if run["exec"] == "process":
             _drop_process_pool()
         return Err("Timeout")
     return box.get("r", Err("NoResult"))
+
+
+def _val_strings(v):
+    return v[2] if v[0] == "arr" else ([v[1]] if v[0] == "val" else [])
+
+
+def run_impl(c):
+    raw, timeouts = [], 0
+    for run in c["runs"]:
+        o = Err("Timeout") if timeouts >= 2 else _run_guarded(c, run)
+        if isinstance(o, Err) and o.name == "OtherError" and o.detail == "":
+            timeouts += 1
+        raw.append(o)
+    strings = set()
+    for o in raw:
+        if not isinstance(o, Err):
+            for a, b in o[0]:
+                strings.update(_val_strings(a))
+                strings.update(_val_strings(b))
+            strings.update(o[1])
+    table = sorted(strings)
+    idx = {x: k for k, x in enumerate(table)}
+
+    def enc(v):
+        if v[0] == "arr":
+            return [1, v[1], [idx[x] for x in v[2]]]
+        if v[0] == "val":
+            return [0, idx[v[1]]]
+        return None
+
+    blocks, out = [], []
+    for o in raw:
+        if isinstance(o, Err):
+            out.append(o)
+            continue
+        vals = []
+        for a, b in o[0]:
+            ea, eb = enc(a), enc(b)
+            vals.append([] if ea is None or eb is None else [ea, eb])
+        if vals not in blocks:
+            blocks.append(vals)
+        out.append([1, blocks.index(vals), [idx[x] for x in o[1]], o[2]])
+    return [table, blocks, out]
 
 
 # ------------------------------------------------------------------ generation of cases
@@ -402,15 +459,16 @@ def _probe(req):
         p = build_pipeline(req, log)
         gens = real_gens(p, req)
         sched = Sched([])
-        c = {"req": req, "stor": {f["name"]: "dict" for f in req["funcs"]}, "stor_form": "str", "entry": "map"}
-        _call_map(p, c, None, CtlExecutor(sched))
+        run = {"stor": {f["name"]: "dict" for f in req["funcs"]}, "stor_form": "str", "entry": "map"}
+        _call_map(p, req, run, None, CtlExecutor(sched))
     return gens, sched.batches
 
 
 def _stor(rng, req, kind):
     if kind in STORAGES:
         return {f["name"]: kind for f in req["funcs"]}, rng.choice(["str", "str", "each", "default"])
-    return {f["name"]: rng.choice(STORAGES) for f in req["funcs"]}, rng.choice(["each", "default"])
+    return ({f["name"]: rng.choice(["dict", "dict", "file_array", "file_array", "shared_memory_dict"])
+             for f in req["funcs"]}, rng.choice(["each", "default"]))
 
 
 def _perms(rng, n, k_random):
@@ -433,9 +491,14 @@ def _random_pis(rng, sizes):
     return pis
 
 
+MAX_RUNS = 40
+KINDS = list(STORAGES) + ["mix"]
+SWEEP_KINDS = ["dict", "dict", "file_array", "file_array", "mix", "mix", "shared_memory_dict"]  # (manager processes are slow)
+
+
 def generate(rng, tier, mult):
     thorough = tier != "quick"
-    n_req = (26 if not thorough else 160) * mult
+    n_req = (80 if not thorough else 450) * mult
     k_random = 4 if not thorough else 10
     cases = []
     for _ in range(n_req):
@@ -446,68 +509,93 @@ def generate(rng, tier, mult):
             continue
         if len(sizes) != len(gens) or sum(sizes) > 40:
             continue
-        base = {"req": req, "gens": gens}
 
-        def case(pis, stor_kind, exec_, entry, exec_form=None, seed=0):
+        def run(pis, stor_kind, exec_, entry, exec_form=None, seed=0):
             stor, sform = _stor(rng, req, stor_kind)
-            return dict(base, pis=pis, stor=stor, stor_form=sform, exec=exec_, entry=entry, seed=seed,
+            return dict(pis=pis, stor=stor, stor_form=sform, exec=exec_, entry=entry, seed=seed,
                         exec_form=exec_form or rng.choice(["single", "single", "each", "default"]))
 
+        runs = []
         # controlled executor: every completion order of one generation at a time
-        kind0 = rng.choice(list(STORAGES) + ["mix"])
+        kind0 = rng.choice(SWEEP_KINDS)
         for g, n in enumerate(sizes):
             for perm in _perms(rng, n, k_random):
                 if perm == list(range(n)) and g > 0:
                     continue
                 pis = _random_pis(rng, sizes) if thorough else [list(range(m)) for m in sizes]
                 pis[g] = perm
-                cases.append(case(pis, kind0 if rng.random() < 0.7 else rng.choice(list(STORAGES) + ["mix"]), "ctl",
-                                  "map" if rng.random() < 0.75 else "async"))
+                runs.append(run(pis, kind0 if rng.random() < 0.7 else rng.choice(SWEEP_KINDS), "ctl",
+                                "map" if rng.random() < 0.75 else "async"))
         # every storage with all generations permuted, both entry points
-        for st in list(STORAGES) + ["mix"]:
-            cases.append(case(_random_pis(rng, sizes), st, "ctl", rng.choice(["map", "async"])))
+        for st in KINDS:
+            runs.append(run(_random_pis(rng, sizes), st, "ctl", rng.choice(["map", "async"])))
         # real thread pools with delays
-        for st in rng.sample(list(STORAGES) + ["mix"], 2 if not thorough else 4):
-            cases.append(case([], st, "thread", rng.choice(["map", "async"]), seed=rng.randrange(10 ** 6)))
+        for st in rng.sample(KINDS, 2 if not thorough else 4):
+            runs.append(run([], st, "thread", rng.choice(["map", "async"]), seed=rng.randrange(10 ** 6)))
         if thorough:
-            for st in rng.sample(list(STORAGES) + ["mix"], 2):
-                cases.append(case([], st, "process", rng.choice(["map", "async"]), seed=rng.randrange(10 ** 6)))
-            if rng.random() < 0.08:
-                cases.append(case([], rng.choice(STORAGES), "default", rng.choice(["map", "async"]),
-                                  exec_form="single", seed=rng.randrange(10 ** 6)))
+            for st in rng.sample(KINDS, 2):
+                runs.append(run([], st, "process", rng.choice(["map", "async"]), seed=rng.randrange(10 ** 6)))
+            if rng.random() < 0.1:
+                runs.append(run([], rng.choice(STORAGES), "default", rng.choice(["map", "async"]),
+                                exec_form="single", seed=rng.randrange(10 ** 6)))
+        for k in range(0, len(runs), MAX_RUNS):
+            cases.append({"req": req, "gens": gens, "runs": runs[k:k + MAX_RUNS]})
     return cases
 
 
 # ------------------------------------------------------------------ Coq literals
+def _nats(l):
+    return "[" + ";".join(str(int(k)) for k in l) + "]"
+
+
 def emit_case(c) -> str:
     req = c["req"]
-    dis = [(o, DIS[c["stor"][f["name"]]]) for f in req["funcs"] for o in f["outs"]]
-    mode = {"ctl": 0, "thread": 1}.get(c["exec"], 2)
-    return ("{| q_funcs := %s; q_inputs := %s; q_internal := %s; q_gens := %s; q_pis := %s; q_dis := %s; "
-            "q_mode := %s |}") % (
+    runs = []
+    for r in c["runs"]:
+        mode = {"ctl": 0, "thread": 1}.get(r["exec"], 2)
+        runs.append("{| r_pis := %s; r_dis := %s; r_mode := %d |}" % (
+            clist([_nats(pi) for pi in r["pis"]]), clist([cbool(DIS[r["stor"][f["name"]]]) for f in req["funcs"]]), mode))
+    return "{| q_funcs := %s; q_inputs := %s; q_internal := %s; q_gens := %s; q_runs := %s |}" % (
         clist([mapgen.func_lit(f) for f in req["funcs"]]), mapgen._env(req["inputs"]),
-        mapgen.shapes_lit(req.get("internal")),
-        clist([clist([cnat(k) for k in g]) for g in c["gens"]]),
-        clist([clist([cnat(k) for k in pi]) for pi in c["pis"]]),
-        clist([cpair(cstr(o), cbool(b)) for o, b in dis]), cnat(mode))
+        mapgen.shapes_lit(req.get("internal")), clist([_nats(g) for g in c["gens"]]), clist(runs))
 
 
 # ------------------------------------------------------------------ evidence helpers
+def _run_nontrivial(r):
+    return r["exec"] != "ctl" or any(pi != list(range(len(pi))) for pi in r["pis"])
+
+
 def nontrivial_key(c):
-    permuted = any(pi != list(range(len(pi))) for pi in c["pis"])
-    if not (permuted or c["exec"] != "ctl"):
+    if not any(_run_nontrivial(r) for r in c["runs"]):
         return None
     return ([mapsym.spec_str(f.get("spec")) for f in c["req"]["funcs"]],
             [v["sh"] if isinstance(v, dict) else 0 for _, v in c["req"]["inputs"]],
-            sorted(c["stor"].items()), c["stor_form"], c["exec"], c["exec_form"], c["entry"], c["pis"])
+            [[sorted(r["stor"].items()), r["stor_form"], r["exec"], r["exec_form"], r["entry"], r["pis"]]
+             for r in c["runs"]])
+
+
+def _bucket(n):
+    for lo, hi in ((0, 0), (1, 1), (2, 4), (5, 9), (10, 19), (20, 40)):
+        if lo <= n <= hi:
+            return f"{lo}-{hi}"
+    return ">40"
 
 
 def distribution(c):
-    sizes = [len(pi) for pi in c["pis"]]
-    return {"exec": c["exec"] + "/" + c["entry"], "exec_form": c["exec_form"],
-            "storage": "+".join(sorted(set(c["stor"].values()))), "stor_form": c["stor_form"],
-            "generations": len(c["gens"]), "max_gen_width": max(len(g) for g in c["gens"]),
-            "max_tasks_in_generation": max(sizes) if sizes else "n/a"}
+    runs = c["runs"]
+    d = {"runs_per_case": _bucket(len(runs)), "generations": len(c["gens"]),
+         "max_gen_width": max(len(g) for g in c["gens"]),
+         "max_tasks_in_generation": max([len(pi) for r in runs for pi in r["pis"]] or [0]),
+         "nontrivial_runs": _bucket(sum(1 for r in runs if _run_nontrivial(r)))}
+    for k in sorted({r["exec"] + "/" + r["entry"] for r in runs}):
+        d["has " + k] = _bucket(sum(1 for r in runs if r["exec"] + "/" + r["entry"] == k))
+    for k in sorted({"+".join(sorted(set(r["stor"].values()))) for r in runs}):
+        d["has storage " + k] = "yes"
+    for k in sorted({r["exec_form"] for r in runs}):
+        d["has exec_form " + k] = "yes"
+    for k in sorted({r["stor_form"] for r in runs}):
+        d["has stor_form " + k] = "yes"
+    return d
 
 
 def finding_id(c, impl_obs, kind):
@@ -517,6 +605,12 @@ def finding_id(c, impl_obs, kind):
 def shrink(c):
     out = []
     req = c["req"]
+    if len(c["runs"]) > 1:
+        half = len(c["runs"]) // 2
+        out.append(dict(c, runs=c["runs"][:half]))
+        out.append(dict(c, runs=c["runs"][half:]))
+        return out
+    run = c["runs"][0]
     fs = req["funcs"]
     for j in range(len(fs) - 1, -1, -1):
         produced = set(fs[j]["outs"])
@@ -534,14 +628,14 @@ def shrink(c):
             gens, sizes = _probe(r2)
         except Exception:  # noqa: BLE001
             continue
-        d = dict(c, req=r2, gens=gens, stor={f["name"]: c["stor"][f["name"]] for f in r2["funcs"]})
-        d["pis"] = [list(range(n - 1, -1, -1)) for n in sizes] if c["exec"] == "ctl" else []
-        out.append(d)
-    if len(set(c["stor"].values())) > 1 or c["stor_form"] != "str":
+        run2 = dict(run, stor={f["name"]: run["stor"][f["name"]] for f in r2["funcs"]})
+        run2["pis"] = [list(range(n - 1, -1, -1)) for n in sizes] if run["exec"] == "ctl" else []
+        out.append({"req": r2, "gens": gens, "runs": [run2]})
+    if len(set(run["stor"].values())) > 1 or run["stor_form"] != "str":
         for st in STORAGES:
-            out.append(dict(c, stor={f["name"]: st for f in fs}, stor_form="str"))
-    if c["exec_form"] != "single":
-        out.append(dict(c, exec_form="single"))
-    if c["entry"] != "map":
-        out.append(dict(c, entry="map"))
+            out.append(dict(c, runs=[dict(run, stor={f["name"]: st for f in fs}, stor_form="str")]))
+    if run["exec_form"] != "single":
+        out.append(dict(c, runs=[dict(run, exec_form="single")]))
+    if run["entry"] != "map":
+        out.append(dict(c, runs=[dict(run, entry="map")]))
     return out
